@@ -2,34 +2,263 @@
 
 package random
 
-// tapeCore is the random source as an arbitrary tape: every byte Read returns is a
-// fresh symbolic byte. maxReads bounds the rejection loop (stated bound).
+// Harnesses for C15 (sampling helpers). The random source is an arbitrary tape: every
+// byte Read returns is a fresh symbolic byte; the tape records what it handed out.
+
 type tapeCore struct {
 	reads    int
-	maxReads int
-	lastLen  int
+	maxReads int        // bound on the number of Read calls (rejection loop unwinding)
+	lastLen  int        // length of the last Read
+	last     [8]byte    // bytes of the last Read (len <= 8 for UintN)
+	vals     [16]uint64 // little-endian value of each Read (len <= 8)
+	rec      []byte     // if non-nil, every byte handed out is appended here
+	fixed    []byte     // if non-nil, bytes to hand out instead of fresh ones
+	fixedPos int
 }
 
 func (t *tapeCore) Read(b []byte) {
 	verifAssume(t.reads < t.maxReads)
-	t.reads++
 	t.lastLen = len(b)
+	v := uint64(0)
 	for i := range b {
-		b[i] = nondetByte()
+		if t.fixed != nil {
+			b[i] = t.fixed[t.fixedPos]
+			t.fixedPos++
+		} else {
+			b[i] = nondetByte()
+		}
+		if t.rec != nil {
+			t.rec = append(t.rec, b[i])
+		}
+		if i < 8 {
+			t.last[i] = b[i]
+			v |= uint64(b[i]) << (8 * uint(i))
+		}
 	}
+	if t.reads < len(t.vals) {
+		t.vals[t.reads] = v
+	}
+	t.reads++
 }
 
-// zzC15_UintN_range: for every n != 0, every pre-state of the shared buffer and every tape,
-// UintN(n) < n
-func zzC15_UintN_range() {
-	n := nondetU64()
-	verifAssume(n != 0)
-	t := &tapeCore{maxReads: 2}
+func newTapePRG(maxReads int) (*genericPRG, *tapeCore) {
+	t := &tapeCore{maxReads: maxReads}
 	p := &genericPRG{randCore: t}
+	// the shared 8-byte buffer has an arbitrary pre-state (earlier calls left bytes there)
 	for i := range p.uintnBuffer {
 		p.uintnBuffer[i] = nondetByte()
 	}
+	return p, t
+}
+
+// zzC15_UintN_contract: for every n != 0 (64-bit symbolic), every buffer pre-state, every tape:
+// result < n, at most 8 bytes are read per attempt, and the result is a function of (n, tape) only:
+// a second generator with a different stale buffer and the same tape returns the same value
+// after the same number of reads (no stale byte of the shared buffer reaches the result).
+func zzC15_UintN_contract(maxReads int) {
+	n := nondetU64()
+	verifAssume(n != 0)
+	p, t := newTapePRG(maxReads)
+	t.rec = make([]byte, 0, 64)
 	r := p.UintN(n)
 	verifReach("UintN returned")
 	verifAssert(r < n, "UintN result < n")
+	verifAssert(t.lastLen <= 8, "read size <= 8")
+	verifAssert(t.reads >= 1, "at least one attempt")
+	verifAssert(bImplies(n == 1, r == 0), "n = 1 gives 0")
+	t2 := &tapeCore{maxReads: maxReads + 1, fixed: append(t.rec, make([]byte, 16)...)}
+	p2 := &genericPRG{randCore: t2}
+	for i := range p2.uintnBuffer {
+		p2.uintnBuffer[i] = nondetByte()
+	}
+	r2 := p2.UintN(n)
+	verifAssert(r2 == r, "result depends on (n, tape) only, not on stale buffer bytes")
+	verifAssert(t2.reads == t.reads, "same number of attempts for the same tape")
+}
+
+// zzC15_UintN_uniform: exact uniformity as a bijection between preimage sets. For every n, every
+// tape T accepted at its first attempt with result v1 and every v2 < n, the tape T xor LE(v1^v2)
+// is accepted at its first attempt with result v2.
+func zzC15_UintN_uniform() {
+	n := nondetU64()
+	verifAssume(n != 0)
+	p1, t1 := newTapePRG(1)
+	v1 := p1.UintN(n)
+	v2 := nondetU64()
+	verifAssume(v2 < n)
+	d := v1 ^ v2
+	t2 := &tapeCore{maxReads: 2}
+	t2.fixed = make([]byte, 16)
+	for i := 0; i < 8; i++ {
+		t2.fixed[i] = t1.last[i] ^ byte(d>>(8*uint(i)))
+	}
+	p2 := &genericPRG{randCore: t2}
+	for i := range p2.uintnBuffer {
+		p2.uintnBuffer[i] = nondetByte()
+	}
+	r2 := p2.UintN(n)
+	verifReach("second UintN returned")
+	verifAssert(t2.reads == t1.reads, "mirrored tape is accepted at the first attempt")
+	verifAssert(t2.lastLen == t1.lastLen, "mirrored tape has the same read size")
+	verifAssert(r2 == v2, "mirrored tape yields v2: preimage sets of v1 and v2 are in bijection")
+}
+
+// decodeInsideOut inverts the inside-out Fisher-Yates: returns j_0..j_{n-1} from the output.
+func decodeInsideOut(items []int) []int {
+	n := len(items)
+	w := make([]int, n)
+	copy(w, items)
+	js := make([]int, n)
+	for i := n - 1; i >= 0; i-- {
+		pos := -1
+		for k := 0; k <= i; k++ {
+			if w[k] == i {
+				pos = k
+			}
+		}
+		if pos < 0 {
+			return nil
+		}
+		js[i] = pos
+		w[pos] = w[i]
+	}
+	return js
+}
+
+// zzC15_Permutation: for every tape accepted without rejection, Permutation(n) is a permutation of 0..n-1
+// and the tape (masked values j_i) is recovered from the output (injective => with n! tapes, bijective;
+// each j_i is exactly uniform on [0,i] by the UintN results => every outcome has probability 1/n!).
+func zzC15_Permutation(n int) {
+	p, t := newTapePRG(n)
+	items, err := p.Permutation(n)
+	verifAssert(err == nil, "no error for n >= 0")
+	verifAssert(len(items) == n, "length n")
+	verifAssume(t.reads <= n) // no rejected attempt (each UintN(i+1) with i >= 1 reads once; UintN(1) reads 0 bytes once)
+	verifReach("Permutation returned")
+	seen := make([]bool, n)
+	for _, v := range items {
+		verifAssert(bAnd(v >= 0, v < n), "element in range")
+		verifAssert(!seen[v], "elements distinct")
+		seen[v] = true
+	}
+	js := decodeInsideOut(items)
+	verifAssert(js != nil, "decodable")
+	for i := 0; i < n; i++ {
+		// j_i as drawn: LE(read i) masked to bitlen(i)
+		mask := uint64(0)
+		for uint64(i)&mask != uint64(i) {
+			mask = (mask << 1) | 1
+		}
+		verifAssert(uint64(js[i]) == t.vals[i]&mask, "tape recovered from outcome (injective)")
+	}
+}
+
+// zzC15_SubPermutation: m distinct in-range elements, and argument validation.
+func zzC15_SubPermutation(n, m int) {
+	p, t := newTapePRG(n + 1)
+	items, err := p.SubPermutation(n, m)
+	if m < 0 || n < m {
+		verifReach("rejected")
+		verifAssert(bAnd(err != nil, items == nil), "invalid sizes rejected")
+		verifAssert(t.reads == 0, "no randomness consumed on rejection")
+		return
+	}
+	verifAssert(err == nil, "no error")
+	verifAssert(len(items) == m, "length m")
+	verifAssume(t.reads <= n)
+	verifReach("SubPermutation returned")
+	seen := make([]bool, n)
+	for _, v := range items {
+		verifAssert(bAnd(v >= 0, v < n), "element in range")
+		verifAssert(!seen[v], "elements distinct")
+		seen[v] = true
+	}
+}
+
+// zzC15_Samples: Samples/Shuffle only apply swap(i, i+j) with i the step and i <= i+j < n; the data stays a
+// permutation of the original items, the tape is recovered from the first m positions (injective).
+func zzC15_Samples(n, m int, shuffle bool) {
+	p, t := newTapePRG(m + 1)
+	data := make([]int, n)
+	for i := range data {
+		data[i] = i
+	}
+	step := 0
+	swap := func(i, j int) {
+		verifAssert(i == step, "swap first index is the step")
+		verifAssert(bAnd(j >= i, j < n), "swap second index in [i, n)")
+		data[i], data[j] = data[j], data[i]
+		step++
+	}
+	var err error
+	if shuffle {
+		err = p.Shuffle(n, swap)
+	} else {
+		err = p.Samples(n, m, swap)
+	}
+	if m < 0 || n < m || n < 0 {
+		verifReach("rejected")
+		verifAssert(err != nil, "invalid sizes rejected")
+		verifAssert(bAnd(step == 0, t.reads == 0), "nothing done on rejection")
+		return
+	}
+	verifAssert(err == nil, "no error")
+	verifAssume(t.reads <= m)
+	verifReach("Samples returned")
+	verifAssert(step == m, "exactly m swaps")
+	seen := make([]bool, n)
+	for _, v := range data {
+		verifAssert(bAnd(v >= 0, v < n), "data stays in range")
+		verifAssert(!seen[v], "data is a permutation of the original items")
+		seen[v] = true
+	}
+	// decode: replay the swaps backwards from the outcome's first m entries
+	w := make([]int, n)
+	for i := range w {
+		w[i] = i
+	}
+	for i := 0; i < m; i++ {
+		// position of data[i] in w (it is at index >= i)
+		pos := -1
+		for k := i; k < n; k++ {
+			if w[k] == data[i] {
+				pos = k
+			}
+		}
+		verifAssert(pos >= i, "sampled element comes from the unsampled part")
+		j := pos - i
+		mask := uint64(0)
+		mx := uint64(n - i - 1)
+		for mx&mask != mx {
+			mask = (mask << 1) | 1
+		}
+		verifAssert(uint64(j) == t.vals[i]&mask, "tape recovered from the ordered sample (injective)")
+		w[i], w[pos] = w[pos], w[i]
+	}
+}
+
+// zzC15_negative: negative sizes are errors for every negative value (symbolic).
+func zzC15_negative() {
+	p, t := newTapePRG(1)
+	n := nondetInt()
+	verifAssume(n < 0)
+	items, err := p.Permutation(n)
+	verifAssert(bAnd(err != nil, items == nil), "Permutation(negative) errors")
+	k := nondetInt()
+	verifAssume(k >= 0)
+	verifAssume(k < 1000)
+	_, err = p.SubPermutation(k, n)
+	verifAssert(err != nil, "SubPermutation(_, negative) errors")
+	err = p.Shuffle(n, func(i, j int) {})
+	verifAssert(err != nil, "Shuffle(negative) errors")
+	err = p.Samples(k, n, func(i, j int) {})
+	verifAssert(err != nil, "Samples(_, negative) errors")
+	m := nondetInt()
+	verifAssume(m > k)
+	err = p.Samples(k, m, func(i, j int) {})
+	verifAssert(err != nil, "Samples(n, m > n) errors")
+	_, err = p.SubPermutation(k, m)
+	verifAssert(err != nil, "SubPermutation(n, m > n) errors")
+	verifAssert(t.reads == 0, "no randomness consumed")
+	verifReach("negative checked")
 }
